@@ -37,7 +37,7 @@ def effective(cfgset):
     return eff_ll, eff_nf, eff_fs, cap
 
 
-def build(line_len, nfields, field_len, body, underscore=0):
+def build(line_len, nfields, field_len, body, underscore=0, long_underscore=False):
     """Well-formed request: request line of exactly line_len bytes (>= 14), nfields field lines, the
     longest exactly field_len bytes (others short); `underscore` of them have an underscore name."""
     pad = line_len - len(b"POST / HTTP/1.1")
@@ -62,7 +62,7 @@ def build(line_len, nfields, field_len, body, underscore=0):
     if field_len is not None and fields:
         # make the last added optional field exactly field_len long (or the only field if fits)
         k = len(fields) - 1
-        name = b"X-L"
+        name = b"X_L" if long_underscore else b"X-L"
         if field_len < len(name) + 1:
             return None
         if k < len(need):
@@ -143,13 +143,15 @@ def part_a_cells(rng, tier):
 def run_part_a(run, e1, cell, rng, tier):
     cfgset, el, d, L, n, F = cell
     for body in (None, b"hello-body"):
-        for hm, under in (("drop", 0), ("drop", 1), ("refuse", 0)):
+        for hm, under in (("drop", 0), ("drop", 1), ("refuse", 0), ("drop", "long")):
             cs = dict(cfgset)
             if hm != "drop":
                 cs["header_map"] = hm
-            if under and n < 2:
+            if under == 1 and n < 2:
                 continue
-            s = build(L, n, F, body, underscore=under)
+            if under == "long" and F is None:
+                continue
+            s = build(L, n, F, body, underscore=1 if under == 1 else 0, long_underscore=(under == "long"))
             if s is None:
                 continue
             stream = s + gen.marker(1, b"end")
@@ -166,7 +168,7 @@ def run_part_a(run, e1, cell, rng, tier):
             segs.append([max(1, p - 1), min(nn - 1, p + 5)])
             for cuts in segs:
                 obs = e1.observe(cfg, gen.cut(stream, cuts))
-                run.case(("A", json.dumps(cs, sort_keys=True), el, d, body is not None, under, len(cuts)))
+                run.case(("A", json.dumps(cs, sort_keys=True), el, d, body is not None, str(under), len(cuts)))
                 accepted = bool(obs["reqs"]) and obs["reqs"][0]["uri"].startswith("/p") or \
                     (bool(obs["reqs"]) and obs["reqs"][0]["uri"] == "/")
                 run.count("A_" + want)
